@@ -245,7 +245,7 @@ impl DiskState {
         if self.persistent[k] {
             self.hard_fault_fired = true;
             self.ever_hard_fault = true;
-            return Err(io::Error::new(io::ErrorKind::Other, "simdisk: persistent fault"));
+            return Err(if self.ord.iter().sum::<u32>() % 2 == 0 { io::Error::from_raw_os_error(5) } else { io::Error::new(io::ErrorKind::Other, "simdisk: persistent fault") });
         }
         let cur = self.cur_op;
         if let Some(f) = self
@@ -265,7 +265,12 @@ impl DiskState {
             } else {
                 self.stats.hard_transient[k] += 1;
             }
-            return Err(io::Error::new(io::ErrorKind::Other, "simdisk: injected fault"));
+            // what real media return: an OS error, a bare kind, or an error with a payload
+            return Err(match self.ord.iter().sum::<u32>() % 3 {
+                0 => io::Error::from_raw_os_error(5), // EIO
+                1 => io::Error::from(io::ErrorKind::Other),
+                _ => io::Error::new(io::ErrorKind::Other, "simdisk: injected fault"),
+            });
         }
         Ok(nth)
     }
